@@ -3,17 +3,34 @@
 (* the real mcp.MemoryEventStore (one line per operation: the operation, its  *)
 (* result, and the store's retained state read back through After).  It       *)
 (* constrains only what C20 states; it does not model eviction policy.        *)
+(*                                                                            *)
+(* After in two phases.  After only hands out an iterator; every RANGING of   *)
+(* it is one read of the stream ("calling the iterator again walks the        *)
+(* sequence again", package iter), which starts when the ranging starts - not *)
+(* when After was called - and may be interleaved with any other operation    *)
+(* (iget / ibegin / inext / istop / idrop lines).  ReplayExact for a ranging: *)
+(* what it hands out is, item by item, the exact replay (AfterOK) of ONE      *)
+(* moment of the ranging, complete when it reports the end; an error comes at *)
+(* the first step or never.  Hence a ranging that starts after SessionClosed  *)
+(* reports the unknown stream or replays what the re-created stream holds -   *)
+(* never what the closed session held - and a ranging in progress is not      *)
+(* disturbed by evictions, by the end of its session or by a new stream under *)
+(* the same ids.  Which moment (the code: the first step) is not prescribed.  *)
 EXTENDS VerifTrace, FiniteSets
 
-CONSTANTS MSessions, MStreams, MDefaultMax
+CONSTANTS MSessions, MStreams, MDefaultMax, MIters
 MPairs == MSessions \X MStreams
 
 VARIABLES l,
           app,   \* ghost: what was appended to each stream since it was (re)created
           fst,   \* last observed `first` of each stream (-1 = not open)
           cfg,   \* configured maximum
-          last   \* size of the most recently appended item
-mvars == <<l, app, fst, cfg, last>>
+          last,  \* size of the most recently appended item
+          it     \* iterator objects: live (a ranging is going on), out (what it has handed out),
+                 \* cands (the exact replays of the moments of the ranging so far)
+mvars == <<l, app, fst, cfg, last, it>>
+
+NoIt == [live |-> FALSE, p |-> <<"", "">>, idx |-> 0, out |-> <<>>, cands |-> {}]
 
 Vis(n, sz) == IF sz = 0 THEN <<-1, 0>> ELSE <<n, sz>>
 
@@ -23,10 +40,10 @@ RECURSIVE SumState(_)
 SumState(ss) == IF ss = <<>> THEN 0 ELSE SumItems(Head(ss).items) + SumState(Tail(ss))
 
 Reset == /\ app' = [p \in MPairs |-> <<>>] /\ fst' = [p \in MPairs |-> -1]
-         /\ cfg' = MDefaultMax /\ last' = 0
+         /\ cfg' = MDefaultMax /\ last' = 0 /\ it' = [k \in MIters |-> NoIt]
 
 MInit == /\ l = 1 /\ app = [p \in MPairs |-> <<>>] /\ fst = [p \in MPairs |-> -1]
-         /\ cfg = MDefaultMax /\ last = 0 /\ MarkInit
+         /\ cfg = MDefaultMax /\ last = 0 /\ it = [k \in MIters |-> NoIt] /\ MarkInit
 
 StreamOK(st, a) ==
   IF st.open THEN /\ st.first + Len(st.items) = Len(a)
@@ -40,8 +57,43 @@ AfterOK(idx, r, a, st) ==
   ELSE /\ r.kind = "items"
        /\ r.items = (IF idx + 1 >= Len(a) THEN <<>> ELSE SubSeq(a, idx + 2, Len(a)))
 
+\* the exact replay after idx of a stream of which a was appended and that is open / starts at f (f < 0: not open)
+Exact(idx, a, opn, f) ==
+  IF ~opn THEN [kind |-> "unknown", items |-> <<>>]
+  ELSE IF idx + 1 < f THEN [kind |-> "purged", items |-> <<>>]
+  ELSE [kind |-> "items", items |-> (IF idx + 1 >= Len(a) THEN <<>> ELSE SubSeq(a, idx + 2, Len(a)))]
+
+IsPrefix(q, r) == Len(q) <= Len(r) /\ q = SubSeq(r, 1, Len(q))
+
+\* one step of a ranging: r is what the step delivered, out what had been handed out before, cs the moments
+StepOK(r, out, cs) ==
+  CASE r.kind = "item" -> \E c \in cs : c.kind = "items" /\ IsPrefix(Append(out, r.items[1]), c.items)
+    [] r.kind = "end"  -> \E c \in cs : c.kind = "items" /\ c.items = out
+    [] OTHER           -> out = <<>> /\ \E c \in cs : c.kind = r.kind
+
 StateOf(e, p) == LET i == CHOOSE i \in DOMAIN e.state : e.state[i].s = p[1] /\ e.state[i].t = p[2]
                  IN e.state[i]
+
+\* the moment after line e, for a ranging over stream p after idx
+Now(e, p, idx, app1) == Exact(idx, app1[p], StateOf(e, p).open, StateOf(e, p).first)
+
+IterStep(e, p, app1) ==
+  LET \* every line is a moment of every ranging that is going on (the iterators remember their own stream)
+      seen == [k \in MIters |-> IF it[k].live THEN [it[k] EXCEPT !.cands = @ \cup {Now(e, it[k].p, it[k].idx, app1)}]
+                                ELSE it[k]]
+  IN CASE e.op = "ibegin" ->
+            \* the ranging starts with this step: its moments are the one before the step and the one after it
+            LET cs == {Exact(e.idx, app[p], fst[p] >= 0, fst[p]), Now(e, p, e.idx, app1)}
+                more == e.res.kind = "item"
+            IN /\ Check(l, "ReplayExact", StepOK(e.res, <<>>, cs))
+               /\ it' = [seen EXCEPT ![e.k] = IF more THEN [live |-> TRUE, p |-> p, idx |-> e.idx, out |-> <<e.res.items[1]>>, cands |-> cs]
+                                                ELSE NoIt]
+       [] e.op = "inext" ->
+            LET more == e.res.kind = "item" IN
+            /\ Check(l, "ReplayExact", it[e.k].live /\ StepOK(e.res, it[e.k].out, seen[e.k].cands))
+            /\ it' = [seen EXCEPT ![e.k] = IF more /\ it[e.k].live THEN [seen[e.k] EXCEPT !.out = Append(@, e.res.items[1])] ELSE NoIt]
+       [] e.op \in {"istop", "idrop"} -> it' = [seen EXCEPT ![e.k] = NoIt]
+       [] OTHER -> it' = seen
 
 Step(e) ==
   LET p == <<e.s, e.t>>
@@ -52,7 +104,7 @@ Step(e) ==
       last1 == IF e.op = "append" THEN e.sz ELSE last
   IN /\ app' = app1 /\ cfg' = cfg1 /\ last' = last1
      /\ Check(l, "NoPanic", e.panic = "")
-     /\ IF e.panic # "" THEN fst' = fst
+     /\ IF e.panic # "" THEN fst' = fst /\ it' = it
         ELSE /\ fst' = [q \in MPairs |-> IF StateOf(e, q).open THEN StateOf(e, q).first ELSE -1]
              /\ Check(l, "SuffixRetained", \A q \in MPairs : StreamOK(StateOf(e, q), app1[q]))
              /\ Check(l, "FirstMonotone",
@@ -63,6 +115,7 @@ Step(e) ==
              /\ Check(l, "AfterExact", e.op = "after" => AfterOK(e.idx, e.res, app1[p], StateOf(e, p)))
              /\ Check(l, "AfterExact", \A q \in MPairs : \A i \in DOMAIN StateOf(e, q).probe :
                           AfterOK(StateOf(e, q).probe[i].idx, StateOf(e, q).probe[i], app1[q], StateOf(e, q)))
+             /\ IterStep(e, p, app1)
 
 MNext == /\ l <= NLines
          /\ l' = l + 1
